@@ -39,7 +39,7 @@ type c11Model struct {
 	alias              [][2]string
 
 	a5winKey string // set by a5Window
-	a5kObj   types.Object
+	a5kSym   *c11V
 }
 
 var (
@@ -85,8 +85,75 @@ func c11GetModel(r *core.R) *c11Model {
 		return nil
 	}
 	m.P, m.H, m.O = c11Param(m.pObj), c11Param(m.hObj), c11Param(m.oObj)
+	// Inlining policy (roles, not names). Inlined: unexported functions and methods, and exported-name methods
+	// of unexported receiver types (internal to the package). Kept opaque: the "child version selectors"
+	// (ChildList, ...) -> *shared.Child (FindVisible / VersionBefore, whatever they are called and whether
+	// they are methods or functions: their arithmetic is NOT decided) and the grouping method (the method
+	// called on the locations of a child that yields the groups; it is checked on its own by group@).
+	keep := map[*types.Func]bool{}
+	policy := func(internalMethods bool) func(fn *types.Func) bool {
+		return func(fn *types.Func) bool {
+			sig := fn.Type().(*types.Signature)
+			if keep[fn] {
+				return false
+			}
+			if c11IsSelectorSig(sig) {
+				// a selector proper searches the list (it has a loop); a loop-free function of that signature
+				// only forwards to one and is inlined like any other helper
+				hasLoop := true
+				if fi := m.it.funcs[fn]; fi != nil && fi.Decl.Body != nil {
+					hasLoop = false
+					ast.Inspect(fi.Decl.Body, func(n ast.Node) bool {
+						switch n.(type) {
+						case *ast.ForStmt, *ast.RangeStmt:
+							hasLoop = true
+						}
+						return !hasLoop
+					})
+				}
+				if hasLoop {
+					return false
+				}
+			}
+			if !fn.Exported() {
+				return true
+			}
+			if rv := sig.Recv(); internalMethods && rv != nil {
+				t := rv.Type()
+				if pt, ok := t.(*types.Pointer); ok {
+					t = pt.Elem()
+				}
+				if nt, ok := t.(*types.Named); ok && !nt.Obj().Exported() {
+					return true
+				}
+			}
+			return false
+		}
+	}
 	m.it = c11NewInterp(pk)
+	m.it.inline = policy(false)
 	m.paths = c11AllPaths(m.it, fi, nil)
+	// exported-name methods of unexported types that were called: the one called on an element of the
+	// location map is the grouping method; if there are others, run again with those inlined
+	others := false
+	for _, p := range m.paths {
+		for _, ev := range p.st.ev {
+			if ev.kind != "call" || ev.call.k != "call" || !ev.call.recv || ev.call.fn == nil || !policy(true)(ev.call.fn) {
+				continue
+			}
+			rv := ev.call.xs[0]
+			if _, isKey := c11IsIterKey(rv.xs1()); rv.k == "index" && isKey && rv.xs[0].k == "call" && strings.HasPrefix(rv.xs[0].name, "make@") {
+				keep[ev.call.fn] = true
+			} else {
+				others = true
+			}
+		}
+	}
+	if others {
+		m.it = c11NewInterp(pk)
+		m.it.inline = policy(true)
+		m.paths = c11AllPaths(m.it, fi, nil)
+	}
 	m.notes = c11PathNotes(m.it, m.paths)
 	c11Dump(r, "Compute", m.paths)
 	// the Get call
@@ -221,19 +288,63 @@ func (m *c11Model) curOf(st *c11St, I *c11V) *c11V {
 		if ev.kind != "call" {
 			continue
 		}
-		rv, args, ok := ev.call.isMethodCall(c11CorePath+".ChildList", "FindVisible")
-		if !ok || rv.key() != m.childT.key() || len(args) < 1 {
-			continue
-		}
-		prv, _, ok := args[0].isMethodCall(c11CorePath+".Parent", "ChangesetID")
+		args, ok := m.selector(ev.call)
 		if !ok {
 			continue
 		}
-		if x, ok := m.isParent(prv); ok && x.key() == I.key() {
-			return ev.call
+		for _, a := range args {
+			prv, _, ok := a.isMethodCall(c11CorePath+".Parent", "ChangesetID")
+			if !ok {
+				continue
+			}
+			if x, ok := m.isParent(prv); ok && x.key() == I.key() {
+				return ev.call
+			}
 		}
 	}
 	return nil
+}
+
+// c11IsSelectorSig: a "child version selector": (ChildList, ...) -> *shared.Child, as method or function.
+func c11IsSelectorSig(sig *types.Signature) bool {
+	if sig.Results().Len() != 1 {
+		return false
+	}
+	pt, ok := sig.Results().At(0).Type().(*types.Pointer)
+	if !ok || namedPath(pt) != c11SharedPath+".Child" {
+		return false
+	}
+	if rv := sig.Recv(); rv != nil {
+		return namedPath(rv.Type()) == c11CorePath+".ChildList"
+	}
+	return sig.Params().Len() >= 1 && namedPath(sig.Params().At(0).Type()) == c11CorePath+".ChildList"
+}
+
+// selector recognises a call of a child version selector on the fetched child list; returns its other arguments.
+func (m *c11Model) selector(v *c11V) ([]*c11V, bool) {
+	if v == nil || v.k != "call" || v.fn == nil || len(v.xs) < 1 || !c11IsSelectorSig(v.fn.Type().(*types.Signature)) {
+		return nil, false
+	}
+	if v.xs[0].key() != m.childT.key() {
+		return nil, false
+	}
+	return v.xs[1:], true
+}
+
+// selectorBefore finds, on a path, the selector call that takes only a time derived from parents[I]
+// (VersionBefore(<time of this parent>)) made while the first upto assumptions were in force.
+func (m *c11Model) selectorBefore(st *c11St, I *c11V, upto int) *c11V {
+	var vb *c11V
+	next := c11Bin(token.ADD, I, c11Int(1)).key()
+	for _, ev := range st.ev {
+		if ev.kind != "call" || ev.nas > upto {
+			continue
+		}
+		if args, ok := m.selector(ev.call); ok && len(args) == 1 && args[0].mentions(I.key()) && !args[0].mentions(next) {
+			vb = ev.call
+		}
+	}
+	return vb
 }
 
 func (m *c11Model) unknownIfNotes(c string) bool {
@@ -369,8 +480,10 @@ func c11A2Compute(r *core.R) {
 	}
 	childInvisible := func(st *c11St) bool { // some child[k].Visible decided false
 		for _, a := range st.as {
-			if !a.val && a.atom.k == "field" && a.atom.obj.Name() == "Visible" && a.atom.xs[0].k == "index" && a.atom.xs[0].xs[0].key() == m.childT.key() {
-				return true
+			if !a.val && a.atom.k == "field" && a.atom.obj.Name() == "Visible" {
+				if _, ok := m.childAt(a.atom.xs[0]); ok {
+					return true
+				}
 			}
 		}
 		return false
